@@ -1101,7 +1101,10 @@ func (c *mctx) binary(x *ast.BinaryExpr) string {
 	}
 	if x.Op == token.EQL || x.Op == token.NEQ {
 		// comparison with nil
-		isNil := func(a ast.Expr) bool { id, ok := a.(*ast.Ident); return ok && id.Name == "nil" && c.info.Uses[id] == types.Universe.Lookup("nil") }
+		isNil := func(a ast.Expr) bool {
+			id, ok := a.(*ast.Ident)
+			return ok && id.Name == "nil" && c.info.Uses[id] == types.Universe.Lookup("nil")
+		}
 		var other ast.Expr
 		if isNil(x.Y) {
 			other = x.X
@@ -2003,7 +2006,9 @@ func (c *mctx) loopBody(body *ast.BlockStmt, state []string) string {
 
 func (c *mctx) forStmt(x *ast.ForStmt, tail func() string) string {
 	// only: for i := 0; i < N; i++ { ... }   with N pure and loop-invariant
-	fail := func() { failf("%s: only `for i := 0; i < N; i++` loops are in the subset: %q", c.pos(x), firstLine(c.src(x))) }
+	fail := func() {
+		failf("%s: only `for i := 0; i < N; i++` loops are in the subset: %q", c.pos(x), firstLine(c.src(x)))
+	}
 	init, ok := x.Init.(*ast.AssignStmt)
 	if !ok || init.Tok != token.DEFINE || len(init.Lhs) != 1 || len(init.Rhs) != 1 {
 		fail()
